@@ -16,7 +16,7 @@ spec/SigQuorum.tla (+ TraceSigQuorum.tla, QuorumDefs.tla); driver harness/cmd/vd
                (TraceSigQuorum): Safety, Rule, SetOnly per event.  Only monitor failures are violations; a mismatch
                with the implementation-shaped prediction that the monitor accepts is recorded as drift.
 """
-import json
+import json, threading
 
 CFG = """SPECIFICATION Spec
 CONSTANTS Kind = "%(kind)s"
@@ -94,49 +94,72 @@ def run(ctx):
     trows.sort(key=lambda x: (order[(x["mode"], x["rule"])] + (3 if x["cond"] == "other-high" else 0), x["n"]))
     ctx.sample({"table_row": trows[len(trows) // 3]})
     events = []
-    out = ctx.driver(b, ["hdr-table", "hdr"], input_obj=trows, timeout=3000)
-    skipped = [o for o in out if o.get("skipped")]
-    for s in skipped:
-        if not (s["mode"] == "solo" and s["n"] > 16):
-            ctx.fail("ledger could not be created: %s" % s)
-        ctx.note("solo ledger with %d bookkeepers cannot be created (%s): %d rows not executed" % (s["n"], s["err"][:80], s["rows"]))
-    events += [o for o in out if "op" in o]
-    n_table = len([e for e in events if e["op"] != "reset"])
+
+    def table_run(part, res):
+        try:
+            res.append(ctx.driver(b, ["hdr-table", "hdr"], input_obj=part, timeout=3000))
+        except Exception as ex:      # re-raised in the main thread
+            res.append(ex)
+    # the worlds above height 20,000,000 need the padded header index (about 1.3 GB, 5-12 s to build): that driver run
+    # goes on in the background while the other parts are generated and executed
+    padded = [x for x in trows if x["cond"] in ("main-high", "other-high")]
+    plain = [x for x in trows if x["cond"] not in ("main-high", "other-high")]
+    pres = []
+    pth = threading.Thread(target=table_run, args=(padded, pres))
+    pth.start()
+    try:
+        out = ctx.driver(b, ["hdr-table", "hdr"], input_obj=plain, timeout=3000)
+        tevents = []
+
+        def take_table(out):
+            for s in [o for o in out if o.get("skipped")]:
+                if not (s["mode"] == "solo" and s["n"] > 16):
+                    ctx.fail("ledger could not be created: %s" % s)
+                ctx.note("solo ledger with %d bookkeepers cannot be created (%s): %d rows not executed" % (s["n"], s["err"][:80], s["rows"]))
+            tevents.extend(o for o in out if "op" in o)
+        take_table(out)
+        # ---- 3. replay
+        if q:
+            replays = [("vbft", "legacy", 4, "{{5}, {2, 5}}", "{{1}, {5}, {2}, {}}", '{"hdr"}'),
+                       ("vbft", "legacy", 4, "{{5}}", "{{1}, {5}}", '{"sub"}'),
+                       ("vbft", "legacy", 4, "{{5}}", "{{1}, {5}}", '{"add"}'),
+                       ("solo", "bft", 3, "{{1, 2, 3}, {4}}", "{{1, 2, 3}, {4}, {1, 2}}", '{"hdr"}'),
+                       ("solo", "bft", 3, "{{1, 2, 3}, {4}}", "{{1, 2, 3}, {4}}", '{"sub"}')]
+        else:
+            replays = [("vbft", "legacy", 4, "{{5}, {2, 5}}", "{{1}, {5}, {2}, {}, {1, 5}}", '{"hdr"}'),
+                       ("vbft", "legacy", 4, "{{5}, {2, 5}}", "{{1}, {5}, {}}", '{"sub"}'),
+                       ("vbft", "legacy", 4, "{{5}, {2, 5}}", "{{1}, {5}, {}}", '{"add"}'),
+                       ("vbft", "legacy", 4, "{{5}}", "{{1}, {5}}", '{"sub", "add"}'),
+                       ("vbft", "legacy", 8, "{{9}, {1, 9}}", "{{1, 2}, {9}, {1}}", '{"sub"}'),
+                       ("vbft", "bft", 4, "{{5}, {2, 5}}", "{{1, 2, 3}, {5}, {2, 5}, {1, 2}}", '{"hdr"}'),
+                       ("vbft", "bft", 4, "{{5}, {2, 5}}", "{{1, 2, 3}, {5}, {2, 5}}", '{"sub"}'),
+                       ("solo", "bft", 3, "{{1, 2, 3}, {4}, {2, 4}}", "{{1, 2, 3}, {4}, {1, 2}, {2, 4}}", '{"hdr"}'),
+                       ("solo", "bft", 3, "{{1, 2, 3}, {4}}", "{{1, 2, 3}, {4}, {1, 2}}", '{"sub"}'),
+                       ("solo", "bft", 3, "{{1, 2, 3}, {4}}", "{{1, 2, 3}, {4}}", '{"add"}')]
+        n_beh = n_replay = 0
+        for i, (mode, rule, n, cfgs, lists, paths) in enumerate(replays):
+            name = "c14_replay%d.cfg" % i
+            traces = ctx.gen("SigQuorum", name, "TRACE", timeout=1500, files={name: cfg(
+                "replay", mode=mode, rule=rule, n=n, cfgs=cfgs, lists=lists, paths=paths, d=3,
+                extra="CONSTRAINT Emit\nINVARIANT PropC14\nPROPERTY PropC14Step")})
+            if len(traces) < 100:
+                ctx.fail("too few behaviours from replay cfg %d: %d" % (i, len(traces)))
+            n_beh += len(traces)
+            out = ctx.driver(b, ["hdr-replay", mode, rule, str(n)], input_obj=traces, timeout=3000)
+            ev = [o for o in out if "op" in o]
+            n_replay += len([e for e in ev if "exp" in e])
+            events += ev
+            if i == 1:
+                ctx.sample({"replay_behaviour": traces[len(traces) // 2]})
+        ctx.note("replay: %d behaviours -> %d executions" % (n_beh, n_replay))
+    finally:
+        pth.join()
+    if isinstance(pres[0], Exception):
+        raise pres[0]
+    take_table(pres[0])
+    events = tevents + events
+    n_table = len([e for e in tevents if e["op"] != "reset"])
     ctx.note("table: %d rows -> %d executions" % (len(trows), n_table))
-    # ---- 3. replay
-    if q:
-        replays = [("vbft", "legacy", 4, "{{5}, {2, 5}}", "{{1}, {5}, {2}, {}}", '{"hdr"}'),
-                   ("vbft", "legacy", 4, "{{5}}", "{{1}, {5}}", '{"sub"}'),
-                   ("vbft", "legacy", 4, "{{5}}", "{{1}, {5}}", '{"add"}'),
-                   ("solo", "bft", 3, "{{1, 2, 3}, {4}}", "{{1, 2, 3}, {4}, {1, 2}}", '{"hdr"}'),
-                   ("solo", "bft", 3, "{{1, 2, 3}, {4}}", "{{1, 2, 3}, {4}}", '{"sub"}')]
-    else:
-        replays = [("vbft", "legacy", 4, "{{5}, {2, 5}}", "{{1}, {5}, {2}, {}, {1, 5}}", '{"hdr"}'),
-                   ("vbft", "legacy", 4, "{{5}, {2, 5}}", "{{1}, {5}, {}}", '{"sub"}'),
-                   ("vbft", "legacy", 4, "{{5}, {2, 5}}", "{{1}, {5}, {}}", '{"add"}'),
-                   ("vbft", "legacy", 4, "{{5}}", "{{1}, {5}}", '{"sub", "add"}'),
-                   ("vbft", "legacy", 8, "{{9}, {1, 9}}", "{{1, 2}, {9}, {1}}", '{"sub"}'),
-                   ("vbft", "bft", 4, "{{5}, {2, 5}}", "{{1, 2, 3}, {5}, {2, 5}, {1, 2}}", '{"hdr"}'),
-                   ("vbft", "bft", 4, "{{5}, {2, 5}}", "{{1, 2, 3}, {5}, {2, 5}}", '{"sub"}'),
-                   ("solo", "bft", 3, "{{1, 2, 3}, {4}, {2, 4}}", "{{1, 2, 3}, {4}, {1, 2}, {2, 4}}", '{"hdr"}'),
-                   ("solo", "bft", 3, "{{1, 2, 3}, {4}}", "{{1, 2, 3}, {4}, {1, 2}}", '{"sub"}'),
-                   ("solo", "bft", 3, "{{1, 2, 3}, {4}}", "{{1, 2, 3}, {4}}", '{"add"}')]
-    n_beh = n_replay = 0
-    for i, (mode, rule, n, cfgs, lists, paths) in enumerate(replays):
-        name = "c14_replay%d.cfg" % i
-        traces = ctx.gen("SigQuorum", name, "TRACE", timeout=1500, files={name: cfg(
-            "replay", mode=mode, rule=rule, n=n, cfgs=cfgs, lists=lists, paths=paths, d=3,
-            extra="CONSTRAINT Emit\nINVARIANT PropC14\nPROPERTY PropC14Step")})
-        if len(traces) < 100:
-            ctx.fail("too few behaviours from replay cfg %d: %d" % (i, len(traces)))
-        n_beh += len(traces)
-        out = ctx.driver(b, ["hdr-replay", mode, rule, str(n)], input_obj=traces, timeout=3000)
-        ev = [o for o in out if "op" in o]
-        n_replay += len([e for e in ev if "exp" in e])
-        events += ev
-        if i == 1:
-            ctx.sample({"replay_behaviour": traces[len(traces) // 2]})
-    ctx.note("replay: %d behaviours -> %d executions" % (n_beh, n_replay))
     # ---- random runs (recorded only)
     nt, ns = (16, 30) if q else (150, 60)
     out = ctx.driver(b, ["hdr-random", str(nt), str(ns)], timeout=3000)
@@ -144,14 +167,24 @@ def run(ctx):
     events += rnd
     ctx.sample({"recorded_events": [{k: e[k] for k in ("op", "mode", "bk", "sg", "cfg", "body", "acc", "obs")} for e in rnd[1:4]]})
     # ---- 4. the monitor judges everything that was executed
-    ok, hw, r = ctx.validate_trace("TraceSigQuorum", "TraceSigQuorum.cfg", events, timeout=2400, heap="12g")
-    if not ok:
-        ctx.fail("trace monitor did not consume the log (line %d of %d): %s" % (hw, len(events), r.out[-1500:]))
+    # (in chunks of at most 40 000 events, cut at "reset" events, so that one TLC run stays small)
+    bad = []
+    lo = 0
+    while lo < len(events):
+        hi = min(len(events), lo + 40000)
+        while hi < len(events) and events[hi]["op"] != "reset":
+            hi += 1
+        ok, hw, r = ctx.validate_trace("TraceSigQuorum", "TraceSigQuorum.cfg", events[lo:hi], timeout=2400, heap="12g")
+        if not ok:
+            ctx.fail("trace monitor did not consume the log (line %d of %d): %s" % (hw, hi - lo, r.out[-1500:]))
+        mon = r.emitted("MONITOR")
+        if len(mon) != 1:
+            ctx.fail("no MONITOR verdict list in TLC output")
+        for x in mon[0]:
+            x["i"] += lo
+            bad.append(x)
+        lo = hi
     ctx.note("monitor run over %d events done" % len(events))
-    mon = r.emitted("MONITOR")
-    if len(mon) != 1:
-        ctx.fail("no MONITOR verdict list in TLC output")
-    bad = mon[0]
     seqs = sum(1 for e in events if e["op"] == "reset")
     ctx.cov["traces_validated_against_impl"] += seqs
     # classify monitor failures
@@ -180,7 +213,7 @@ def run(ctx):
             if tag.startswith(("replay", "random")):
                 tag = tag.split("-")[0]
             key = "%s-%s:%s:%s:%s" % (e["mode"], e["rule"], e["op"], "+".join(cl), tag)
-        ctx.violation(key, {"event": e, "clauses": cl, "set_in_force_by_spec": x["force"], "sequence": events[start:idx + 1][-6:]},
+        _viol(ctx, key, {"event": e, "clauses": cl, "set_in_force_by_spec": x["force"], "sequence": events[start:idx + 1][-6:]},
                       replay={"kind": "c14-sequence", "events": events[start:idx + 1]})
     # conformance with the implementation-shaped prediction (drift accounting)
     drift = 0
@@ -209,3 +242,15 @@ def run(ctx):
                                    "maps are read through ledgerstore.VerifPeerInfo (hook) for the SetOnly clause",
                                    "the post-20,000,000 rule is reached by padding the in-memory header index (hook VerifPadHeaderIndex)",
                                    "validator sets of 1..N members; the empty announced set is outside the property's domain"])
+
+
+_MAXV = 20
+
+
+def _viol(ctx, key, detail, replay=None):
+    """at most _MAXV distinct violation records per run (every further one is only counted)"""
+    if len(ctx.violations) >= _MAXV and key not in [v[0] for v in ctx.violations] and not any(
+            k.get("status") == "known" and (k["key"] == key or (k["key"].endswith("*") and key.startswith(k["key"][:-1]))) for k in ctx.known):
+        ctx.cov["violations_not_recorded"] = ctx.cov.get("violations_not_recorded", 0) + 1
+        return True
+    return ctx.violation(key, detail, replay=replay)
